@@ -196,3 +196,56 @@ def run_store_coherence(repo, task):
     if n_methods < 8:
         rep['detail'] = f'only {n_methods} store methods found: the generator no longer matches the source layout'
     return rep
+
+
+def run_forwarding(repo, task):
+    """C13 site obligations read off the AST (G7): the public window / group iterator interfaces are thin forwarding layers in front of
+    the contracted generator (`axis_window_items`).  For every forwarding function found: each of its parameters reaches the delegate call as
+    `name=name` (or positionally under its own name) -- a dropped or crossed argument is a refuted obligation naming the parameter."""
+    import ast
+    t0 = time.time()
+    items, failures = [], []
+
+    def ob(name, ok, note, fn):
+        items.append(dict(name=name, fn=fn, kind='G7', verdict='proved' if ok else 'refuted', backend='ast', ms=0.0, note=note))
+        if not ok:
+            failures.append(dict(key=f'G:{name}', what=f'{name}: {note}', nofail=True, replay=dict(site=name, note=note)))
+    core = os.path.join(repo, 'static_frame/core')
+
+    def check(mod, cls_name, fn_name, delegate, skip=('self',)):
+        tree = ast.parse(open(os.path.join(core, mod)).read())
+        found = 0
+        for cls in [n for n in ast.walk(tree) if isinstance(n, ast.ClassDef) and (cls_name is None or n.name == cls_name)]:
+            for fn in [n for n in cls.body if isinstance(n, ast.FunctionDef) and n.name == fn_name]:
+                calls = [c for c in ast.walk(fn) if isinstance(c, ast.Call) and (
+                    (isinstance(c.func, ast.Attribute) and c.func.attr == delegate) or (isinstance(c.func, ast.Name) and c.func.id == delegate))]
+                if len(calls) != 1:
+                    continue
+                c = calls[0]
+                found += 1
+                q = f'{mod}:{cls.name}.{fn.name}'
+                params = [a.arg for a in fn.args.args + fn.args.kwonlyargs if a.arg not in skip]
+                for p in params:
+                    kw = [k for k in c.keywords if k.arg == p]
+                    ok = (len(kw) == 1 and isinstance(kw[0].value, ast.Name) and kw[0].value.id == p) or \
+                         (not kw and any(isinstance(a, ast.Name) and a.id == p for a in c.args))
+                    what = ast.unparse(kw[0].value) if kw else 'not passed'
+                    ob(f'{q}:forwards:{p}', ok, f'{delegate}(... {p}={what} ...)', q)
+                # and nothing is passed under a different parameter's name
+                for k in c.keywords:
+                    if k.arg in params and isinstance(k.value, ast.Name) and k.value.id in params and k.value.id != k.arg:
+                        ob(f'{q}:crossed:{k.arg}', False, f'{delegate}(... {k.arg}={k.value.id} ...)', q)
+        return found
+    n = 0
+    n += check('node_iter.py', 'IterNodeWindow', '__call__', 'get_delegate')
+    n += check('node_iter.py', 'IterNodeGroup', '__call__', 'get_delegate')
+    n += check('node_iter.py', 'IterNodeGroupAxis', '__call__', 'get_delegate')
+    n += check('node_iter.py', 'IterNodeAxis', '__call__', 'get_delegate')
+    n += check('series.py', 'Series', '_axis_window_items', 'axis_window_items')
+    n += check('frame.py', 'Frame', '_axis_window_items', 'axis_window_items')
+    n += check('quilt.py', 'Quilt', '_axis_window_items', 'axis_window_items')
+    rep = dict(name=task['name'], status='ok' if n >= 4 else 'checker-fault', items=items, failures=failures, evaluations=0, distinct=0, rule='',
+               samples=[dict(obligation=i['name'], verdict=i['verdict']) for i in items[:3]], trusted=[], assumptions=[], wall_s=round(time.time() - t0, 2))
+    if n < 4:
+        rep['detail'] = f'only {n} forwarding functions found: the generator no longer matches the source layout'
+    return rep
